@@ -154,6 +154,10 @@ func registerIntrinsics(pkg string) {
 			fr.i.px.obs = append(fr.i.px.obs, obsRec{a[0].(string), a[1]})
 			return nil
 		})
+		reg("vSetMapOrder", func(fr *frame, a []value) value {
+			fr.i.px.mapOrder = a[0].(int)
+			return nil
+		})
 		reg("vSymbolic", func(fr *frame, a []value) value { return true })
 		reg("vDrawCount", func(fr *frame, a []value) value {
 			n := 0
